@@ -157,6 +157,14 @@ func Configs(maxLen, preferLastLen int) []Config {
 	for _, c := range []int{8, 16, 24} {
 		out = append(out, Config{Kind: "multi-cap", Cap: c, PreferLast: true})
 	}
+	// caller-supplied buffers whose capacity is not a whole number of words
+	for _, c := range []int{12, 20, 33, 36, 39} {
+		out = append(out, Config{Kind: "multi-cap", Cap: c})
+	}
+	for _, c := range []int{12, 20} {
+		out = append(out, Config{Kind: "single-cap", Cap: c})
+		out = append(out, Config{Kind: "multi-cap", Cap: c, PreferLast: true})
+	}
 	for _, s := range seqs([]int{8, 16, 24, 32}, maxLen) {
 		out = append(out, Config{Kind: "tight", Seq: s, Tail: "exact"})
 		if len(s) <= 1 {
